@@ -357,10 +357,14 @@ fn build_filter_expr(
         Expr::column(&inner_field.name)
     };
 
+    // A CorrelationPredicate reads `outer_expr <op> inner_col` (see
+    // try_extract_correlation, which flips the operator when the source had
+    // the inner column on the left), so the filter keeps that orientation:
+    // building `inner <op> outer` silently reversed every <, <=, >, >=.
     Some(Expr::BinaryExpr {
-        left: Box::new(inner_expr),
+        left: Box::new(pred.outer_expr.clone()),
         op: pred.op,
-        right: Box::new(pred.outer_expr.clone()),
+        right: Box::new(inner_expr),
     })
 }
 
